@@ -5,6 +5,22 @@ Relations
            independent parser, re-read by haptools' Breakpoints and karyogram
   gen    : every child of every generation tiles the chromosomes (shares the
            recorded-draw machinery and the model of C01)
+  seq    : HISTORIES of 2-4 simulate_gt + write_breakpoints calls made one after the other in ONE
+           interpreter on the SAME map directory, with different regions / chromosome subsets /
+           models / population sizes / seeds (a region ending inside the chromosome, then a wider
+           one, then the whole chromosome, then several chromosomes; overlapping chromosome
+           subsets; the same run again).  Demanded, because the property is about EVERY run and
+           says nothing about what the interpreter did before (C10: "whatever ran earlier in the
+           same process"):
+             holds - every run of the history satisfies the file-level property (as bpfile), and
+                     writes exactly the file the same run (same files, same seed) writes alone in
+                     a fresh interpreter;
+             agree - the markers _prepare_coords hands to _simulate are C02_Coords.prepare_coords
+                     of THIS run's map files / chromosomes / region (per chromosome the file's
+                     markers, sliced by the region, the last one's bp replaced by the sentinel), and
+                     the file is C02_Coords.model_run of this run's inputs and recorded draws
+                     (prepare_coords -> sim_generations -> write_breakpoints).  The model of a run
+                     has no access to the history (C02_run_independent_of_history).
 """
 import os
 import re
@@ -50,7 +66,11 @@ TRANSLATION = {
 RULE = (
     "configurations: 1-4 chromosomes of 1..22,X, 2-9 markers with zero/tiny/huge cM gaps, 2-3 source populations "
     "incl. zero fractions and pulses, 1-4 model lines, optional --region, popsize 2..30, 1-3 samples; "
-    "non-trivial = some written haplotype has >= 2 tracts on one chromosome. Distinct = distinct canonical JSON of the configuration."
+    "non-trivial = some written haplotype has >= 2 tracts on one chromosome. Distinct = distinct canonical JSON of the configuration. "
+    "seq: one directory of 1-5 map files (4-10 markers) and 2-4 runs on it: region ending inside the chromosome -> wider region -> "
+    "whole chromosome -> all chromosomes; moving regions; overlapping chromosome subsets; the same run repeated; each run with its "
+    "own model / population size / seed; non-trivial = two runs share a chromosome with different chromosome lists or regions and "
+    "some haplotype has >= 2 tracts on one chromosome."
 )
 TRUSTED = [
     "numpy RNG draws are recorded, not modelled (universally quantified in the theorems)",
@@ -59,6 +79,7 @@ TRUSTED = [
 ]
 ASSUMPTIONS = [
     "chromosome list strictly increasing (documented: sorted), map bp/cM increasing (events ordered), first model line has admixed fraction 0",
+    "seq: one map file per chromosome, its first column = the chromosome of its name; a region is given with chroms = [its chromosome] (as the command does); every run has a seed",
 ]
 MAXI = 2**31 - 1
 
@@ -406,7 +427,7 @@ class Seq(Relation):
     coq_case_type = "scase"
     coq_model = "model_seq"
     coq_imports = ["Tracts", "C01_Model", "C02_Model", "C02_Generations", "C02_Coords"]
-    budget = {"quick": 24, "thorough": 500}
+    budget = {"quick": 20, "thorough": 250}
     max_cases_per_shard = 8
     timeout_per_case = 400
     anchors = BpFile.anchors
@@ -557,7 +578,11 @@ LEVEL_TEXT = (
     "of generations: every simulated haplotype tiles every requested chromosome up to the sentinel (hence exactly one label "
     "per position), by an invariant over the per-child loop of _simulate and induction over generations, with get_segment's "
     "shape contract discharged from the C01 kernel theorems; labels come only from founder draws. Tied to /repo on every run "
-    "by recorded-draw agreement on every child and by evaluating the file-level checker on the .bp files the implementation writes."
+    "by recorded-draw agreement on every child and by evaluating the file-level checker on the .bp files the implementation writes. "
+    "_prepare_coords is a model function too: every chromosome's end coordinate - first, middle or last, with or without --region - is "
+    "the sentinel (C02_prepare_coords_ends), so the tiling theorem holds for the whole run with no hypothesis on the end coordinates "
+    "(C02_run_tiles); the model of a run is a function of that run's inputs only (C02_run_independent_of_history) and is evaluated "
+    "against every run of generated histories of runs made in one interpreter, each also compared with the same run made alone."
 )
 LEVEL_NOTE = (
     "Trusted: Coq kernel/vm_compute; hand-written model validated differentially; numpy draw contracts (randint in range, "
